@@ -393,6 +393,27 @@ func Wait() {
 }
 
 func Yield() { Point() }
+
+// WaitUntil is the cooperative form of "block until f()".
+func WaitUntil(f func() bool) {
+	if len(threads) == 0 {
+		for !f() {
+			runtime.Gosched()
+		}
+		return
+	}
+	for !f() && !aborted {
+		me := curThr
+		to := pick(me, nextEvent(), true)
+		if to == nil {
+			panic("verifsym: deadlock in native replay (WaitUntil)")
+		}
+		handoff(me, to)
+	}
+	if aborted && curThr.id == 0 {
+		panic(stop{"a thread stopped the replay"})
+	}
+}
 func Tier() int                    { return cur.Tier }
 func Symbolic() bool               { return false }
 func Concrete(v int) int           { return v }
